@@ -13,7 +13,7 @@ META = {
             'blank lines, %-sequences, with and without final newline) is fed to the real `snoopyctl enable`; the result must be byte-identical or old+[newline]+entry+newline, refusals only when an '
             'active line mentions another libsnoopy.so, comments never count, enable is idempotent and `status` then reports the entry.'
             ' The own entry counts wherever the dynamic loader takes it (indented, after or between other libraries); sparse files of 2^31-1..2^33 bytes; descriptors 0-2 closed.',
-    'note': 'Lines with leading blanks before # and mentions inside a trailing comment of a foreign entry are outside the alphabet (the statement does not classify them).',
+    'note': 'Indented comment lines and mentions inside the trailing comment of another entry are in the alphabet and count as dead text (what the dynamic loader does with them).',
 }
 
 
